@@ -56,8 +56,24 @@ and ``npartitions>1``, and the symptom is ``values`` / ``order`` /
 ``ExcType@file.py:function``.  If no single step reproduces the failure the
 label names the whole pipeline (``a>b@<layout style>``).
 
-Calibration (unchanged tree) — see the bottom of this docstring's companion
-list ``CALIBRATION`` in the module.
+Calibration (unchanged tree, seeds 0, 1, 2, 7, 12345):
+
+* FALSE ALARM corrected — ``map_partitions(f)`` with ``f`` returning a *generator*
+  followed by a step that reads the bag from two tasks (``zip(b, b.map(g))``): the
+  partition is a one-shot generator, so the second reader sees nothing.  That is
+  the user function's choice, not a bag defect; generator-returning partition
+  functions are now only generated as the LAST step of a pipeline.
+* design decisions taken before any alarm: ``distinct(key=)`` does not demand a
+  particular representative; ``topk`` ties may be broken either way; groups of
+  ``groupby`` are compared as multisets; ``fold``/``foldby`` initials are identities.
+* disk ``groupby``: the default ``blocksize`` costs ~0.15 s per input partition
+  (``toolz.partition_all(2**20, ...)``) and partd fsyncs every append; most disk
+  cases pass a small documented ``blocksize=`` and point ``temporary_directory``
+  at a run-private tmpfs directory (both recorded as label features).
+* GENUINE defects (PENDING, /verif/findings_proposed/C48.md): accumulate with an
+  empty first partition and no initial; fold(initial=) on an all-empty
+  multi-partition bag; lazily evaluated partitions read twice (through the alias
+  tasks of concat/repartition, or ``b.product(b)``).
 """
 from __future__ import annotations
 
@@ -82,7 +98,23 @@ ASSUMPTIONS = ["CPython builtins / itertools / functools.reduce / fractions as t
                "dask.delayed builds the partitions the harness wrote",
                "the operator library used in folds is associative with identity initials (checked by construction)"]
 BUDGET = {"quick": 35, "thorough": 540}
-FLOORS = {"quick": {"evaluations": 100, "distinct_nontrivial": 80}, "thorough": {"evaluations": 1000, "distinct_nontrivial": 800}}
+# floors: ~45 % of the counts measured on the unchanged tree for the full quick stream (9000 cases, seeds 0-2, 7, 12345);
+# the thorough stream is 150000 cases of the same mixture (x16.7), floored at x15 of the quick floors
+_QUICK_COUNTERS = {
+    "results_compared": 3800, "multi_step_pipelines": 1100, "empty_partition_cases": 1600, "empty_partition_in_reduction": 1000,
+    "threads_runs": 450, "groupby_shuffle_tasks": 120, "groupby_shuffle_disk": 120, "groupby_multi_stage": 35,
+    "fold_multi_level": 65, "foldby_multi_level": 80, "frequencies_multi_level": 80, "reduction_multi_level": 70, "topk_multi_level": 70,
+    "op_map": 400, "op_starmap": 150, "op_filter": 330, "op_remove": 200, "op_map_partitions": 210, "op_pluck": 200, "op_flatten": 120,
+    "op_distinct": 230, "op_frequencies": 200, "op_topk": 190, "op_fold": 185, "op_reduction": 185, "op_foldby": 220, "op_groupby": 300,
+    "op_join": 95, "op_product": 95, "op_accumulate": 250, "op_take": 190, "op_repartition": 300, "op_zip": 130, "op_concat": 200,
+    "op_count": 95, "op_sum": 90, "op_mean": 75, "op_std": 75, "op_var": 70, "op_min": 80, "op_max": 80, "op_any": 95, "op_all": 95,
+}
+FLOORS = {
+    "quick": {"evaluations": 4000, "distinct_nontrivial": 3400, "counters": _QUICK_COUNTERS, "sets": {"pipelines": 1500},
+              "max_skipped_fraction": 0.15},
+    "thorough": {"evaluations": 60000, "distinct_nontrivial": 50000, "counters": {k: v * 15 for k, v in _QUICK_COUNTERS.items()},
+                 "sets": {"pipelines": 12000}, "max_skipped_fraction": 0.15},
+}
 EXHAUSTIVE_SPACE = None
 LEVEL_NOTE = ("trusts CPython's builtins/itertools/functools/fractions as reference and the harness' own multiset comparison; "
               "operators given to fold/foldby/reduction are associative with identity initials by construction")
@@ -94,9 +126,24 @@ CLAIM = ("Every generated bag pipeline (1-3 operations from the statement's list
 TECHNIQUE = "runtime monitoring: differential oracle (plain-Python reference pipeline) on computed results, with step isolation + greedy witness shrinking for labels"
 CASE_TIMEOUT = 120
 
-PENDING = {}
-
-CALIBRATION = []
+# genuine defects seen on the unchanged tree (see /verif/findings_proposed/C48.md)
+PENDING = {
+    "accumulate:no-initial&first-partition-empty&npartitions>1:TypeError@bag/core.py:accumulate_part":
+        "Bag.accumulate(binop) without initial: an empty first partition hands [] to the next partition as its initial value (TypeError)",
+    "accumulate:no-initial&first-partition-empty&npartitions>1:values":
+        "same mechanism when binop accepts a list (mul, max on lists ...): silently wrong values such as [[], [], []]",
+    "fold:initial&empty-bag&npartitions>1:TypeError@bag/core.py:_reduce":
+        "Bag.fold(binop, initial=x) on a bag whose (>1) partitions are all empty raises TypeError instead of returning x",
+    "elementwise>concat>input-used-twice:any:values":
+        "a lazily evaluated (filter/map/...) partition that leaves a fused chain through concat's alias task is read by two tasks "
+        "(zip(b, b.map(f)), map(f, b2), product with a multi-partition bag ...): elements are lost",
+    "elementwise>concat>input-used-twice:unshrunk:values":
+        "same mechanism, witness not reproducible on a rebuilt bag (depends on the key order seen by fuse_linear_task_spec)",
+    "elementwise>product:self:values":
+        "b.product(b) on a bag whose partitions are lazily evaluated (map/filter/starmap/...) returns [] (itertools.product(it, it))",
+    "repartition>product:self&first-partition-empty&npartitions>1:values":
+        "same mechanism as elementwise>product:self with repartition (shrinking: lazy toolz.concat) as the producer",
+}
 
 
 class RefReject(Exception):
@@ -899,7 +946,8 @@ FORCED = OPS + ("groupby", "groupby", "foldby", "fold", "reduction", "accumulate
 PREFIX_OPS = ("map", "filter", "remove", "map_partitions", "pluck", "flatten", "starmap", "distinct", "frequencies", "foldby",
               "groupby", "accumulate", "repartition", "zip", "concat", "map", "filter")
 START_KINDS = {  # element kinds on which a forced op can start directly
-    "starmap": ("P", "T"), "pluck": ("P", "T", "D"), "flatten": ("S", "P", "I"), "sum": ("I",), "mean": ("I",), "std": ("I",), "var": ("I",),
+    "starmap": ("P", "T"), "pluck": ("P", "T", "D"), "flatten": ("S", "P"), "sum": ("I",), "mean": ("I",), "std": ("I",), "var": ("I",),
+    "min": COMPARABLE, "max": COMPARABLE, "frequencies": HASHABLE, "accumulate": ("I", "S", "P", "T"),
 }
 
 
@@ -1121,7 +1169,7 @@ def _pipe_names(steps):
     reads its input twice by that property (the mechanism), otherwise by name"""
     last = steps[-1]
     names = ["elementwise" if s.name in ELEMENTWISE else s.name for s in steps[:-1]]
-    if TWICE_FEATS.intersection(last.feats) and any(s.name in ("concat", "repartition") for s in steps[:-1]):
+    if TWICE_FEATS.intersection(last.feats) and "self" not in last.feats and any(s.name in ("concat", "repartition") for s in steps[:-1]):
         # producer > key-aliasing step > several consumer tasks: one mechanism whatever the consumer is
         return names + ["input-used-twice"], []
     return names + [last.name], None
@@ -1263,9 +1311,9 @@ def _plan_pipeline(rng, forced, st0):
     return None, None
 
 
-def _start_kind(rng, forced):
+def _start_kind(rng, forced, attempt=0):
     ks = START_KINDS.get(forced)
-    if ks and rng.random() < 0.7:
+    if ks and (attempt or rng.random() < 0.7):
         return rng.choice(ks)
     return rng.choice(G.KINDS)
 
@@ -1273,17 +1321,20 @@ def _start_kind(rng, forced):
 def run_case(case, ctx):
     forced = case["op"]
     rng = random.Random(case["cs"])
-    kind = _start_kind(rng, forced)
-    L = G.gen_seq(rng, kind, 40)
-    layout = G.gen_layout(rng, len(L))
-    bag, parts = G.build_bag(L, layout)
-    if parts is None:
-        parts = G.parts_of(bag)
-        if [G.canon(x) for p in parts for x in p] != [G.canon(x) for x in L]:
-            ctx.violation("from_sequence:%s:values" % layout["style"], "partitions %r do not concatenate to %r" % (parts, L))
-            return
-    st0 = St(kind, parts)
-    steps, states = _plan_pipeline(rng, forced, st0)
+    for attempt in range(3):
+        kind = _start_kind(rng, forced, attempt)
+        L = G.gen_seq(rng, kind, 40)
+        layout = G.gen_layout(rng, len(L))
+        bag, parts = G.build_bag(L, layout)
+        if parts is None:
+            parts = G.parts_of(bag)
+            if [G.canon(x) for p in parts for x in p] != [G.canon(x) for x in L]:
+                ctx.violation("from_sequence:%s:values" % layout["style"], "partitions %r do not concatenate to %r" % (parts, L))
+                return
+        st0 = St(kind, parts)
+        steps, states = _plan_pipeline(rng, forced, st0)
+        if steps is not None:
+            break
     if steps is None:
         ctx.reject("no typed pipeline ending in %s for kind %s" % (forced, kind))
         return
